@@ -68,19 +68,16 @@ Definition enc_spec (s : bytes) : sx :=
 Definition sgn_sx (z : Z) : sx := SI (Z.sgn z).
 
 (* pool: for every string the reference result and whether the model parser accepts;
-   then, over the strings accepted by both (in order), the matrix of
-   (reference comparison, sign of the model comparison) *)
+   then the matrix of the reference comparison over the strings the reference accepts
+   and the matrix of the signs of the model comparison over the strings the model
+   accepts (both row-major, in the order of the pool) *)
 Definition c02_pool (strs : list bytes) : sx :=
-  let both :=
-    flat_map (fun s => match spec_parse s, parse_pypi s with
-                       | Some p, Ok v => [(p, v)]
-                       | _, _ => []
-                       end) strs in
+  let specs := flat_map (fun s => match spec_parse s with Some p => [p] | None => [] end) strs in
+  let mods := flat_map (fun s => match parse_pypi s with Ok v => [v] | _ => [] end) strs in
   SL [SL (map enc_spec strs);
       SL (map (fun s => match parse_pypi s with Ok _ => SB sym_ok | _ => SB sym_err end) strs);
-      SL (flat_map (fun a => flat_map (fun b =>
-            [SI (spec_compare (fst a) (fst b));
-             match compare (snd a) (snd b) with Ok z => sgn_sx z | _ => SB sym_panic end]) both) both)].
+      SL (flat_map (fun a => map (fun b => SI (spec_compare a b)) specs) specs);
+      SL (flat_map (fun a => map (fun b => match compare a b with Ok z => sgn_sx z | _ => SB sym_panic end) mods) mods)].
 
 Fixpoint decode_strs (l : list sx) : option (list bytes) :=
   match l with
